@@ -44,13 +44,16 @@ impl Scn {
     }
 }
 
-#[derive(Default, Clone)]
+#[derive(Default)]
 struct Ledger {
     passes: u64,
     completes: u64,
     rt: u64,
     open: u32,
     nodes: Vec<usize>,
+    /// entries deliberately left un-exited: kept alive until the oracle has run, then dropped (not leaked:
+    /// a leaked entry pins its statistics node, and the thorough tier runs hundreds of thousands of executions)
+    kept: Vec<sentinel_core::base::EntryStrongPtr>,
 }
 
 fn scenario(s: Scn) {
@@ -79,7 +82,7 @@ fn scenario(s: Scn) {
                 }
                 if s.leave_open && k + 1 == s.pairs {
                     l.open += 1;
-                    std::mem::forget(e);
+                    l.kept.push(e);
                 } else {
                     e.exit();
                     l.completes += s.batch as u64;
@@ -97,7 +100,7 @@ fn scenario(s: Scn) {
     } else {
         None
     };
-    let mut total = main_ledger.clone();
+    let mut total = main_ledger;
     for h in handles {
         let l = h.join().expect("worker thread");
         total.passes += l.passes;
@@ -105,6 +108,7 @@ fn scenario(s: Scn) {
         total.rt += l.rt;
         total.open += l.open;
         total.nodes.extend(l.nodes);
+        total.kept.extend(l.kept);
     }
     if let Some(c) = clock {
         c.join().expect("clock thread");
